@@ -3,7 +3,7 @@
    generated program (compilation + interface assignability); the theorems cover the identifier
    discipline; the emitted function set and import set of the model are compared with the output. *)
 From Coq Require Import List NArith Bool String.
-From GV Require Import Base Namer NamerProofs.
+From GV Require Import Base Ty Conf Extracted Namer NamerProofs IdFacts.
 Import ListNotations.
 Open Scope N_scope.
 
@@ -22,7 +22,20 @@ Proof. exact name_terminates. Qed.
 Theorem C01_candidates_distinct : forall name i j, cand name i = cand name j -> i = j.
 Proof. exact cand_inj. Qed.
 
+(* the base names of temporaries are derived from types (xtype.Type.ID): for every type that is not itself a named
+   type, in every environment whose type names are non-empty, that identifier is not a Go keyword
+   (before fix 66143db a channel type yielded "chan": finding F-C01-9; named types yield package name + type name) *)
+Theorem C01_type_identifier_is_no_keyword : forall e t, wf_env e -> (forall id, t <> TNamed id) -> ~ In (type_id e t) go_keywords.
+Proof. exact type_id_no_keyword. Qed.
+
+(* ... and the source agrees with the model on the one kind whose natural name is a keyword (read from asID's AST) *)
+Theorem C01_channel_identifier_escaped : x_chan_ids = [s2r "xchan"; s2r "chan"]%string /\
+  (forall e i, as_id e true (TOther 2 i) = s2r "xchan"%string) /\ (forall e i, as_id e false (TOther 2 i) = s2r "chan"%string).
+Proof. repeat split; reflexivity. Qed.
+
 Print Assumptions C01_names_fresh.
 Print Assumptions C01_never_the_receiver.
 Print Assumptions C01_name_terminates.
 Print Assumptions C01_candidates_distinct.
+Print Assumptions C01_type_identifier_is_no_keyword.
+Print Assumptions C01_channel_identifier_escaped.
